@@ -34,6 +34,8 @@ read back as two objects), attachments of the plain classes, cyclic references, 
 import Midgard.Proofs.H5Attr
 import Midgard.Proofs.H5Dataset
 import Midgard.Proofs.H5Refs
+import Midgard.Proofs.H5Meta
+import Midgard.Proofs.H5Bits
 
 namespace Midgard.Props.C10
 open Midgard.H5Attr Midgard.H5 Midgard.Dataset
@@ -224,9 +226,148 @@ example : Reach exHeap (restrictFields 2 exDS.fields) 4 ∧ Reach exHeap (restri
   have h5 : Reach exHeap (restrictFields 2 exDS.fields) 5 := .ref (ob := exHeap[6]) h6 rfl rfl
   refine ⟨.ref (ob := exHeap[5]) h5 rfl rfl, h5, ?_, ?_⟩ <;> rw [exRestrict] <;> rfl
 
-/-- a dataset in which two fields hold one array object is not `Writable` (the file holds it twice) -/
+/-- a dataset in which two fields hold one array object is not `Writable` (since the `fix:` the file holds the array once
+and the other field's group names that field; `read_write` does not cover it yet: `alias_*` below) -/
 example : ¬ Writable exHeap { numObs := 2, fields := [.leaf "a" .position 2 2 none 3, .leaf "a2" .position 2 2 none 3] } 2 := by
   simp [Writable, writableB, restrictFields, Midgard.H5.Field.level, leafObjs, nodupB]
+
+/-! ### bit patterns -/
+
+/-- **floats are read back bit for bit** — the sign of a zero, the payload of a NaN, subnormals: for every object
+reachable from the written fields whose rows are given as 64-bit patterns (`bitsRows ws`, the IEEE-754 words of its
+doubles), the object read back has exactly these words (`rowsBits`), row by row, column by column.  The word cells are
+what the correspondence sends for every numeric array (driver mode `rtbits`). -/
+theorem bits_identical (h : Heap) (d : DS) (lvl : Nat) (hw : Writable h d lvl) :
+    ∃ (file : File) (h' : Heap) (φ : Nat → Nat), writeDS h d lvl = .ok file ∧
+      readBack h d file = .ok (h', { numObs := d.numObs, fields := renameFields φ (restrictFields lvl d.fields) }) ∧
+      ∀ (x : Nat) (ob : Obj) (ws : List (List UInt64)), Reach h (restrictFields lvl d.fields) x → h[x]? = some ob →
+        ob.rows = bitsRows ws → ∃ ob', h'[φ x]? = some ob' ∧ rowsBits ob'.rows = ws.map some := by
+  obtain ⟨file, h', φ, hwr, hrd, himg, _⟩ := roundTrip_core h d lvl hw
+  refine ⟨file, h', φ, hwr, hrd, fun x ob ws hx hob hrows => ?_⟩
+  obtain ⟨ob0, h0, h1⟩ := himg x hx
+  rw [hob] at h0
+  cases h0
+  exact ⟨_, h1, by rw [rename_rows, hrows, rowsBits_bitsRows]⟩
+
+/-- the words are an injective code of the cells: −0.0 (`0x8000000000000000`) and +0.0, two NaNs with different payloads
+are different cells -/
+example : cellBits (bitsCell 0x8000000000000000) = some 0x8000000000000000 ∧ bitsCell 0x8000000000000000 ≠ bitsCell 0 ∧
+    bitsCell 0x7ff8000000000000 ≠ bitsCell 0x7ff8000000000001 := by
+  refine ⟨cellBits_bitsCell _, ?_, ?_⟩ <;> decide
+
+/-! ### meta information and `vars` -/
+
+/-- **`Meta.read (Meta.write m) = m`**: every key of `dset.meta` comes back with its value, for every nesting of
+dicts, lists, tuples, sets, strings, numbers, booleans, NaN and infinities -/
+theorem meta_read_write (m : MetaDict) (as : List (String × Attr)) (h : writeMeta m = some as) : readMeta as = some m :=
+  readMeta_writeMeta m as h
+
+/-- the group `__meta__` has exactly the keys of the meta as attribute names, and the write succeeds iff no value is a
+bare `None` -/
+theorem meta_written (m : MetaDict) :
+    ((writeMeta m).isSome = metaOK m) ∧ ∀ as, writeMeta m = some as → as.map (·.1) = m.map (·.1) := by
+  refine ⟨?_, writeMeta_keys m⟩
+  induction m with
+  | nil => rfl
+  | cons kv r ih =>
+    obtain ⟨k, v⟩ := kv
+    simp only [writeMeta, metaOK]
+    cases hv : encode v with
+    | none => simp
+    | some a =>
+      cases hr : writeMeta r with
+      | none => rw [hr] at ih; simp [← ih]
+      | some r' => rw [hr] at ih; simp [← ih]
+
+/-- **`read (write d ℓ) = restrict d ℓ` for the whole dataset**: fields as in `read_write`, and the meta information
+and the `vars` come back as they were -/
+theorem read_write_full (h : Heap) (d : DSM) (lvl : Nat) (hw : Writable h d.ds lvl) (hm : metaOK d.info = true) :
+    ∃ (fm : FileM) (h' : Heap) (φ : Nat → Nat), writeDSM h d lvl = .ok (some fm) ∧
+      readBackM h d fm = .ok (h', { ds := { numObs := d.ds.numObs, fields := renameFields φ (restrictFields lvl d.ds.fields) },
+                                    info := d.info, vars := d.vars }) ∧
+      (∀ x, Reach h (restrictFields lvl d.ds.fields) x → ∃ ob, h[x]? = some ob ∧ h'[φ x]? = some (ob.rename φ)) ∧
+      (∀ x y, Reach h (restrictFields lvl d.ds.fields) x → Reach h (restrictFields lvl d.ds.fields) y → φ x = φ y → x = y) :=
+  roundTripM_core h d lvl hw hm
+
+/-- the hypotheses of `read_write_full` are satisfiable: meta with a string spelling `nan`, a nested dict with a `None`
+and a NaN inside, an empty set; `vars` with tricky strings -/
+example : metaOK [("k0", .atom (.str "nan")), ("k1", .dict [(.atom (.str "a"), .list [.atom .none, .atom .nan])]),
+    ("k2", .set [])] = true := by simp [metaOK, encode]
+
+/-- a bare `None` cannot be saved: `Dataset.write` raises `TypeError` -/
+example : writeDSM exHeap { ds := exDS, info := [("k", .atom .none)] } 2 = .ok none ∨
+    ∃ e, writeDSM exHeap { ds := exDS, info := [("k", .atom .none)] } 2 = .error e := by
+  cases hw : writeDS exHeap exDS 2 with
+  | error e => exact Or.inr ⟨e, by simp [writeDSM, hw]⟩
+  | ok f => exact Or.inl (by simp [writeDSM, hw, writeMeta, encode])
+
+/-! ### one array object held by several fields (`same_as`) -/
+
+/-- **one array, two fields — the write step**: a leaf field whose array the memo knows under another field's name
+is written as a group without payload that names that field (`same_as`); the memo is unchanged -/
+theorem alias_written_once (h : Heap) (lvl : Nat) (nm : String) (k : Kind) (o no : Nat) (u : Option (List String)) (l : Nat)
+    (pre : Path) (memo : WMemo) (name : Path) (hm : memo.lookup o = some name) (hne : name ≠ pre ++ [nm]) :
+    ∃ a, writeField h lvl (.leaf nm k o no u l) pre memo = .ok (.mk a none [], memo) ∧
+      a.sameAs = some name ∧ a.fieldname = pre ++ [nm] ∧ a.unit = u ∧ a.level = l := by
+  have hal : aliasOf memo o (pre ++ [nm]) = some name := by
+    simp only [aliasOf, hm]
+    have : (name == pre ++ [nm]) = false := by simpa using hne
+    simp [this]
+  exact ⟨{ fieldname := pre ++ [nm], src := o, unit := u, level := l, sameAs := some name }, by simp only [writeField, hal], rfl, rfl, rfl, rfl⟩
+
+/-- **the read step, that field read before**: the field gets the very object the memo holds for the named field -/
+theorem alias_read_shares (file : File) (fa d : Nat) (k : Kind) (a : GAttrs) (p : Option Obj) (subs : List (String × Grp))
+    (s : RSt) (name : Path) (o : Nat) (ha : a.sameAs = some name) (hm : s.memo.lookup name = some o) :
+    readField file fa (d + 1) (some k) (.mk a p subs) s =
+      .ok (.leaf (lastName a.fieldname) k o (objLen s.heap o) (readUnit a.unit) a.level, s.set a.fieldname o) := by
+  have h1 : resolveAlias file fa a s = .ok (s.set a.fieldname o) := by simp only [resolveAlias, ha, hm]
+  have h2 : (s.set a.fieldname o).memo.lookup a.fieldname = some o := by simp [RSt.set]
+  simp only [readField, h1, h2]
+  rfl
+
+/-- **the read step, that field not read yet**: it is read now (its own group), both names are entered in the memo with
+the one new object — so the named field, when its turn comes, is that object too (`alias_read_shares`' memo-hit is
+`readField`'s own first test) -/
+theorem alias_read_forward (file : File) (fa d : Nat) (k : Kind) (a : GAttrs) (p : Option Obj) (subs : List (String × Grp))
+    (s s' : RSt) (name : Path) (g : Grp) (o : Nat) (ha : a.sameAs = some name) (hm : s.memo.lookup name = none)
+    (hg : lookupGrp file.groups name = some g) (hr : fieldRead file fa g s = .ok (o, s')) :
+    readField file fa (d + 1) (some k) (.mk a p subs) s =
+      .ok (.leaf (lastName a.fieldname) k o (objLen s'.heap o) (readUnit a.unit) a.level, (s'.set name o).set a.fieldname o) ∧
+    ((s'.set name o).set a.fieldname o).memo.lookup a.fieldname = some o ∧
+    (name ≠ a.fieldname → ((s'.set name o).set a.fieldname o).memo.lookup name = some o) := by
+  have h1 : resolveAlias file fa a s = .ok ((s'.set name o).set a.fieldname o) := by simp only [resolveAlias, ha, hm, hg, hr]
+  have h2 : ((s'.set name o).set a.fieldname o).memo.lookup a.fieldname = some o := by simp [RSt.set]
+  refine ⟨?_, h2, ?_⟩
+  · simp only [readField, h1, h2]
+    rfl
+  · intro hne
+    simp only [RSt.set, List.lookup]
+    have : (name == a.fieldname) = false := by simpa using hne
+    simp [this]
+
+def exAliasHeap : Heap :=
+  let r3 : Row := [.num 1, .num 2, .num 3]
+  [ { kind := .position, ndim := 2, cols := 3, rows := [r3, r3] },
+    { kind := .position, ndim := 2, cols := 3, rows := [r3, r3], other := some 0 } ]
+
+def exAliasDS : DS := { numObs := 2, fields := [ .leaf "a" .position 0 2 none 3, .coll "g" 2 3 [ .leaf "b" .position 0 2 none 3 ],
+  .leaf "c" .position 1 2 none 3 ] }
+
+/-- the dataset of the former finding (fields `a` and `g.b` hold one array, `c.other` is that array), written at level 1
+and read back: `a` and `g.b` are one object again and `c.other` is that object -/
+theorem alias_example :
+    (match writeDS exAliasHeap exAliasDS 1 with
+     | .ok file => (match readBack exAliasHeap exAliasDS file with
+        | .ok (h', d') => decide (leafAt d'.fields ["a"] = leafAt d'.fields ["g", "b"]) &&
+            (match leafAt d'.fields ["c"] with
+             | some c => (h'[c]?.bind Obj.ref) == leafAt d'.fields ["a"] && (leafAt d'.fields ["a"]).isSome
+             | none => false) && d'.fields.length == 3 && h'.length == 2
+        | .error _ => false)
+     | .error _ => false) = true := by
+  simp [writeDS, writeField, writeField.writeFields, constructMemo, exAliasDS, exAliasHeap, Midgard.H5.Field.level, aliasOf,
+    writeArr, attrName, Obj.ref, Kind.hasOther, Kind.isDelta, List.lookup, Obj.strip, Field.name,
+    readBack, readDS, readTop, readField, readMembers, resolveAlias, fieldRead, readArr, readRef, refTarget, lookupGrp,
+    RSt.alloc, RSt.set, regTop, fieldsDepth, Obj.withRef, lastName, objLen, readUnit, leafAt, findField, getField, Grp.subs]
 
 end Midgard.Props.C10
 
@@ -245,3 +386,11 @@ end Midgard.Props.C10
 #print axioms Midgard.Props.C10.restrict_omits_iff_below_level
 #print axioms Midgard.Props.C10.omitted_iff_below_level
 #print axioms Midgard.Props.C10.exRestrict
+#print axioms Midgard.Props.C10.alias_written_once
+#print axioms Midgard.Props.C10.alias_read_shares
+#print axioms Midgard.Props.C10.alias_read_forward
+#print axioms Midgard.Props.C10.alias_example
+#print axioms Midgard.Props.C10.meta_read_write
+#print axioms Midgard.Props.C10.meta_written
+#print axioms Midgard.Props.C10.read_write_full
+#print axioms Midgard.Props.C10.bits_identical
